@@ -27,11 +27,13 @@ pub struct Opts {
     pub strict_unexplored: bool,
     /// solver cap for flipping "late" decisions (see run_unit)
     pub late_timeout_s: u64,
+    /// concurrent solver processes for the flip queries of one path
+    pub threads: usize,
 }
 
 impl Default for Opts {
     fn default() -> Self {
-        Opts { seed: 0, timeout_s: 30, max_paths: 20000, simplify: true, verbose: false, budget_s: 1.0e9, strict_unexplored: false, late_timeout_s: 2 }
+        Opts { seed: 0, timeout_s: 30, max_paths: 20000, simplify: true, verbose: false, budget_s: 1.0e9, strict_unexplored: false, late_timeout_s: 2, threads: 4 }
     }
 }
 
@@ -78,6 +80,8 @@ pub struct UnitStats {
     pub flips_regime: usize,
     /// decisions after the last program point an obligation refers to (not explored)
     pub flips_late_unknown: usize,
+    /// flipped sides whose witness came from the pool of earlier witnesses / simple mutations (no query)
+    pub flips_pool: usize,
     pub truncated: bool,
     pub ob_total: usize,
     pub ob_identity: usize,
@@ -186,6 +190,60 @@ impl Explorer {
         Explorer { opts, solver, last_prefix: 0 }
     }
 
+    /// A witness for `PC[0..i) ∧ ¬atom_i` among earlier witnesses of the unit and simple mutations of
+    /// the current one (an input set to another input's value, to the ends of its domain).
+    fn pool_flip(&self, c: &Ctx, i: usize, pool: &[StdMap<String, u32>]) -> Option<StdMap<String, u32>> {
+        let d = &c.trace[i];
+        let ok = |w: &StdMap<String, u32>| -> bool {
+            let vals = c.eval_all(w);
+            let g = |x: dag::Arg| match x {
+                dag::Arg::K(b) => f32::from_bits(b),
+                dag::Arg::N(j) => vals[j as usize],
+            };
+            // inputs must stay inside their (regime-restricted) domains
+            for v in &c.vars {
+                let x = vals[v.node as usize];
+                if v.dom != Dom::AnyBits && !((x >= v.lo && x <= v.hi) || (v.zero_ok && x == 0.0 && x.is_sign_positive())) {
+                    return false;
+                }
+            }
+            c.trace[..i].iter().all(|t| dag::apply_cmp(t.cmp, g(t.a), g(t.b)) == t.side) && dag::apply_cmp(d.cmp, g(d.a), g(d.b)) != d.side
+        };
+        for w in pool.iter().rev().take(64) {
+            if ok(w) {
+                let mut m = c.witness.clone();
+                for (k, v) in w {
+                    if m.contains_key(k) {
+                        m.insert(k.clone(), *v);
+                    }
+                }
+                if ok(&m) {
+                    return Some(m);
+                }
+            }
+        }
+        let names: Vec<String> = dag::vs_iter(&d.vars).filter(|j| *j < c.vars.len()).map(|j| c.vars[j].name.clone()).collect();
+        if names.len() <= 8 {
+            for a in &names {
+                let mut cands: Vec<u32> = names.iter().filter(|b| *b != a).filter_map(|b| c.witness.get(b).copied()).collect();
+                if let Some(v) = c.vars.iter().find(|v| &v.name == a) {
+                    if v.lo.is_finite() && v.hi.is_finite() {
+                        cands.push(v.lo.to_bits());
+                        cands.push(v.hi.to_bits());
+                    }
+                }
+                for bits in cands {
+                    let mut m = c.witness.clone();
+                    m.insert(a.clone(), bits);
+                    if ok(&m) {
+                        return Some(m);
+                    }
+                }
+            }
+        }
+        None
+    }
+
     /// The decision ladder for one formula on the current path (the context is still alive):
     /// identity, the path's own witness, intervals, order facts (lemma instances), solver.
     fn ladder(&mut self, c: &Ctx, f: &Bx) -> (&'static str, String, Option<BTreeMap<String, String>>, Option<String>) {
@@ -269,7 +327,12 @@ impl Explorer {
             }
         }
         self.last_prefix = ob.direct.bound(c).min(c.trace.len());
-        let (v, how, cex, detail) = self.ladder(c, &ob.direct);
+        let (v, how, cex, mut detail) = self.ladder(c, &ob.direct);
+        if v != "holds" {
+            // the formula itself (depth-limited) is the explanation of what differs
+            let f = ob.direct.fold_identity(c).show(c, 6);
+            detail = Some(format!("{}{}", detail.map(|d| d + " | ").unwrap_or_default(), f.chars().take(700).collect::<String>()));
+        }
         ObReport { name: ob.name.clone(), verdict: v.into(), how, time_s: t0.elapsed().as_secs_f64(), cex, detail, prefix: self.last_prefix }
     }
 
@@ -280,6 +343,7 @@ impl Explorer {
         let mut stats = UnitStats::default();
         let mut paths: Vec<PathReport> = vec![];
         let mut work: Vec<(StdMap<String, u32>, usize)> = vec![(StdMap::new(), 0)];
+        let mut pool: Vec<StdMap<String, u32>> = vec![];
         let q0 = self.solver.stats.clone();
         while let Some((witness, bound)) = work.pop() {
             if paths.len() >= self.opts.max_paths || t0.elapsed().as_secs_f64() > self.opts.budget_s {
@@ -309,6 +373,11 @@ impl Explorer {
             let idx = paths.len();
             let mut obs = vec![];
             for ob in &ctx.obs {
+                // beyond the unit's wall-clock budget the solver is no longer consulted
+                if t0.elapsed().as_secs_f64() > self.opts.budget_s {
+                    self.solver.timeout_s = 0;
+                    stats.truncated = true;
+                }
                 let r = self.decide_ob(&ctx, ob);
                 stats.ob_total += 1;
                 if let Some(l) = r.how.strip_prefix("lemma:") {
@@ -351,9 +420,37 @@ impl Explorer {
                     .unwrap_or(0)
                     .min(ctx.trace.len())
             };
+            pool.push(ctx.witness.clone());
+            // first-stage flip queries that are not answered by the cache or by the witness pool are
+            // solved concurrently (independent solver processes)
+            let mut pool_hit: StdMap<usize, StdMap<String, u32>> = StdMap::new();
+            {
+                let mut todo: Vec<(crate::smt::Query, u64)> = vec![];
+                for i in bound..ctx.trace.len() {
+                    let d = &ctx.trace[i];
+                    if d.kind != Kind::Branch {
+                        continue;
+                    }
+                    if let Some(w) = self.pool_flip(&ctx, i, &pool) {
+                        pool_hit.insert(i, w);
+                        continue;
+                    }
+                    let late = i >= relevant;
+                    let atom = Bx::Cmp(d.cmp, d.a, d.b);
+                    let goal = if d.side { atom.not() } else { atom };
+                    let b = goal.bound(&ctx).min(i);
+                    todo.push((build_query(&ctx, &ctx.trace[..b], &goal), if late { self.opts.late_timeout_s } else { self.opts.timeout_s }));
+                }
+                self.solver.prefetch(todo, self.opts.threads);
+            }
             for i in bound..ctx.trace.len() {
                 let late = i >= relevant;
                 self.solver.timeout_s = if late { self.opts.late_timeout_s } else { self.opts.timeout_s };
+                if let Some(w) = pool_hit.remove(&i) {
+                    stats.flips_pool += 1;
+                    work.push((w, i + 1));
+                    continue;
+                }
 
                 let d = &ctx.trace[i];
                 match d.kind {
